@@ -64,7 +64,9 @@ def _monitor_start():
 def _work(arg):
     modname, job, prefixes, phase = arg
     import logging
+    import warnings
     logging.disable(logging.CRITICAL)
+    warnings.simplefilter("ignore")
     t0 = time.perf_counter()
     try:
         _monitor_start()
@@ -143,7 +145,7 @@ def run_property(pid, modname, tier, seed=0, procs=None):
             _progress(res)
             if res.get("phase") == "expand" and res.get("pending"):
                 j = jd[res["job"]]
-                for ch in _chunks(res["pending"], procs * 2):
+                for ch in _chunks(res["pending"], max(procs * 2, len(res["pending"]) // 2)):
                     second.append((modname, j, ch, "shard"))
                 res["pending"] = []
         for res in pool.imap_unordered(_work, second):
